@@ -295,6 +295,35 @@ where
                 o.sig(format!("{}|{}|scalar{}", env.curve, kind, j));
             }
         }
+        // canonical scalars at the very top of the range are valid encodings and must decode
+        {
+            let p = num_bigint::BigUint::from_bytes_le(&<G::ScalarField as PrimeField>::MODULUS.to_bytes_le());
+            let one = num_bigint::BigUint::from(1u32);
+            let top_limb = (&p >> 192u32) << 192u32;
+            for (kind, val) in [("p-1", &p - &one), ("p-2", &p - &one - &one), ("top-limb-of-p", top_limb.clone()), ("top-limb-of-p+1", &top_limb + &one), ("p-2^64", &p - (&one << 64u32)), ("2^k-1 below p", ((&one << (p.bits() - 1)) - &one))] {
+                if val >= p {
+                    continue;
+                }
+                for (j, off) in ly.scalars.iter().enumerate() {
+                    let mut bytes = val.to_bytes_le();
+                    bytes.resize(ssz, 0);
+                    let mut b = b1.clone();
+                    b[*off..*off + ssz].copy_from_slice(&bytes);
+                    o.evals += 1;
+                    match R1CSProof::<G>::from_bytes(&b) {
+                        Ok(p2) => {
+                            if p2.to_bytes().unwrap_or_default() != b {
+                                o.violate("canonical-roundtrip", format!("encoding with scalar {} = {} re-encodes differently", crate::mirror::SCALAR_NAMES[j], kind), json!({"bytes_hex": crate::sc::hex(&b)}));
+                            } else {
+                                o.count("canonical extreme scalars decode and re-encode", 1);
+                            }
+                        }
+                        Err(_) => o.violate(format!("canonical-rejected:{}", kind), format!("a well-formed encoding whose scalar {} is the canonical value {} is rejected", crate::mirror::SCALAR_NAMES[j], kind), json!({"bytes_hex": crate::sc::hex(&b)})),
+                    }
+                    o.sig(format!("{}|canonical-{}|scalar{}", env.curve, kind, j));
+                }
+            }
+        }
         for (kind, enc) in hostile_scalars::<G>() {
             for (j, off) in ly.scalars.iter().enumerate() {
                 o.evals += 1;
@@ -331,7 +360,7 @@ where
 fn cases(ctx: &Ctx, curve: &str) -> Vec<Case> {
     let mut r = R::new(ctx.sub_seed(11, curve.len() as u64));
     let mut v = vec![];
-    for n in [0usize, 1, 2, 3, 4, 5, 8, 9, 16, 17, 32, 33, 64] {
+    for n in [0usize, 1, 2, 3, 4, 5, 8, 9, 16, 17, 32, 33, 64, 129, 257, 300] {
         let cfg = if n % 2 == 1 && n > 1 { GenCfg::simple(n / 2, n - n / 2) } else { GenCfg::simple(n, 0) };
         v.push(Case { curve: curve.into(), seed: r.u64(), cfg, invalid_sweep: n <= 9 });
     }
@@ -347,7 +376,7 @@ fn run_curve<G: AffineRepr>(ctx: &Ctx, curve: &'static str, only: Option<&Case>)
 where
     G::BaseField: PrimeField,
 {
-    let env = Env::<G>::new(curve, 64);
+    let env = Env::<G>::new(curve, 512);
     let cs = match only {
         Some(c) => vec![c.clone()],
         None => cases(ctx, curve),
